@@ -1,9 +1,86 @@
 import RustbusModel.Model.Proto
+import RustbusModel.Model.Recv
 namespace Driver.C09
-open Rustbus Rustbus.Proto
+open Rustbus Rustbus.Proto Rustbus.Recv Rustbus.Header
 
-/-- line protocol handler for the ops `c09.*` (tokens of one request line → one response line) -/
+/-- "as much as there is": the kernel returns min(requested, available) -/
+def big : Nat := 4294967296
+
+def dotNats (s : String) : Option (List Nat) :=
+  if s == "-" then some [] else
+  (s.splitOn ".").foldr (fun t acc =>
+    match t.toNat?, acc with
+    | some n, some r => some (n :: r)
+    | _, _ => none) (some [])
+
+def showDots (ns : List Nat) : String :=
+  if ns.isEmpty then "-" else ".".intercalate (ns.map toString)
+
+/-- `<hex>/<fd ids joined by .>` -/
+def parseFrame (s : String) : Option Frame :=
+  match s.splitOn "/" with
+  | [h, f] =>
+    match parseHex h, dotNats f with
+    | some b, some fds => some { bytes := b, fds := fds }
+    | _, _ => none
+  | _ => none
+
+/-- `a<n>`: the peer sends the next n bytes; `r<k>` / `m<k>`: read_once / guarded read_once whose recvmsg
+    gets `k` bytes from the kernel (0: EAGAIN); `g`: get_next_message(Nonblock), every recvmsg of its
+    loop gets whatever is available -/
+def parseStep (s : String) : Option Action :=
+  if s == "g" then some (.call .getNext (List.replicate 64 (.deliver big)))
+  else if s.startsWith "a" then (s.drop 1).toString.toNat?.map Action.arrive
+  else if s.startsWith "r" then (s.drop 1).toString.toNat?.map (fun k => Action.call .readOnce [.deliver k])
+  else if s.startsWith "m" then (s.drop 1).toString.toNat?.map (fun k => Action.call .readMore [.deliver k])
+  else none
+
+def cksum (bs : List UInt8) : Nat :=
+  let p := bs.foldl (fun (p : Nat × Nat) x =>
+    let a := (p.1 + x.toNat) % 65521
+    (a, (p.2 + a) % 65521)) (1, 0)
+  p.2 * 65536 + p.1
+
+def showRes : Res → String
+  | .readOk => "ok"
+  | .skipped => "skip"
+  | .timedOut => "to"
+  | .closed => "closed"
+  | .invalid => "invalid"
+  | .tooLong => "toolong"
+  | .malformed => "malformed"
+  | .msg b f =>
+    match decodeMessage b with
+    | some (fx, _, body) => s!"msg:{fx.serial}:{body.length}:{cksum body}:{showDots f}"
+    | none => "msg:?"
+
+def showNeeded (st : State) : String :=
+  match bytesNeeded st.buf with
+  | .bytes n => toString n
+  | .tooLong => "toolong"
+  | .invalid => "invalid"
+
+def showWhole (st : State) : String :=
+  match check st with
+  | .whole => "t"
+  | .need _ => "f"
+  | .err .tooLong => "toolong"
+  | .err _ => "invalid"
+
+def exec (st : State) (w : World) : List Action → List String → List String
+  | [], acc => acc.reverse
+  | .arrive n :: acts, acc => exec st (w.arrive n) acts acc
+  | .call c evs :: acts, acc =>
+    match step c st w evs with
+    | (r, st', w') => exec st' w' acts (s!"{showRes r}/{showNeeded st'}/{showWhole st'}" :: acc)
+
 def handle : List String → String
+  | ["c09.run", frames, script] =>
+    match (frames.splitOn "|").mapM parseFrame, (script.splitOn ",").mapM parseStep with
+    | some fs, some acts =>
+      let obs := exec State.empty (World.init fs) acts []
+      if obs.isEmpty then "-" else ";".intercalate obs
+    | _, _ => "bad-op"
   | _ => "bad-op"
 
 end Driver.C09
